@@ -4,6 +4,7 @@ CONSTANTS
   Cid <- MCCid
   Qof <- MCQof
   Transport = "udp"
+  AnswerRcode = "ok"
   CheckQuestion = TRUE
   MaxSends = 4
   MaxSocks = 3
